@@ -113,3 +113,28 @@ def gf2_determined(H, ncols, known, targets):
         if pr == 1 << b:        # pivot row with a single unknown: that unknown is determined
             det.add(unk[b])
     return {t for t in targets if t in det}
+
+
+def matrix_premises(H, r, n):
+    """Hypotheses of the IT/ML theorems about a parity-check matrix (rows as lists of columns): returns the first one that fails, or None.
+    H0_len, H0_nodup, H0_range, H0_deg, R_le_N, H0_cols (every column occurs), stair (row c holds column c; its other entries are sources or earlier repairs)."""
+    if len(H) != r:
+        return "number of rows %d != r=%d" % (len(H), r)
+    if r > n:
+        return "more rows than columns"
+    seen = set()
+    for i, row in enumerate(H):
+        if len(set(row)) != len(row):
+            return "row %d has a duplicate entry" % i
+        if any(c < 0 or c >= n for c in row):
+            return "row %d has an entry out of range" % i
+        if len(row) < 2:
+            return "row %d has fewer than two entries" % i
+        if i not in row:
+            return "row %d does not contain its own repair column" % i
+        if any(c != i and c < r and c > i for c in row):
+            return "row %d contains a later repair column" % i
+        seen.update(row)
+    if len(seen) != n:
+        return "column %d occurs in no equation" % min(set(range(n)) - seen)
+    return None
